@@ -23,6 +23,9 @@ DEFAULTS = dict(
     p_matfree=0.12, p_sparse=0.5, p_approx=0.0,
     p_scaling=0.0,       # ref/ref0/res_ref on outputs
     p_known_c05=0.0,     # allow index forms that hit the recorded C05 finding (nd non-flat single int/array)
+    p_scaled_copy=0.0,   # append components y = s*x (s a scalar, possibly negative) fed by a state and make both
+                         # responses: their reverse-mode right-hand sides are (anti-)parallel
+    p_rhs_checking=0.0,  # DirectSolver / ScipyKrylov get rhs_checking=True (linear-solution caching in rev mode)
     max_size=6,
     solver_mix='any',    # 'any' | 'runonce' (acyclic + default solvers)
     offset_units=True,
@@ -243,6 +246,28 @@ def gen_spec(rng, opts=None):
             c['inputs'].append({'name': name, 'shape': list(ishape), 'units': units})
             spec['conns'].append({'src': so['name'], 'tgt': name, 'tgt_units': units, 'chain': chain,
                                   'src_is_param': is_param})
+    # ---- scaled copies of states (drawn only when the option is on, so other users keep their streams)
+    if o['p_scaled_copy'] > 0 and rng.random() < o['p_scaled_copy']:
+        cand = [oo for c in comps for oo in c['outputs']]
+        forced = []
+        for k in range(rng.randint(1, 2)):
+            so = rng.choice(cand)
+            m = int(np.prod(so['shape']))
+            sfac = rng.choice([-3.0, -2.0, -0.5, -1.0, 2.0, 0.25, -1.5])
+            nm = 's%d' % k
+            c = {'name': nm, 'kind': 'exp', 'fixed_terms': True,
+                 'inputs': [{'name': nm + '_x0', 'shape': list(so['shape']), 'units': so.get('units')}],
+                 'outputs': [{'name': nm + '_y0', 'shape': list(so['shape']), 'units': so.get('units')}],
+                 'terms': {nm + '_y0': {'c': [0.0] * m, 'A': {nm + '_x0': (sfac * np.eye(m)).tolist()}, 'B': {}}},
+                 'styles': {'%s_y0|%s_x0' % (nm, nm): rng.choice(['dense', 'diag', 'rowcol'])}}
+            if cyclic:
+                c['outputs'][0]['val'] = [0.0] * m
+                c['outputs'][0]['val'] = np.zeros(so['shape']).tolist()
+            comps.append(c)
+            spec['conns'].append({'src': so['name'], 'tgt': nm + '_x0', 'tgt_units': so.get('units'), 'chain': [],
+                                  'src_is_param': False})
+            forced += [so['name'], nm + '_y0']
+        spec['force_of'] = [x for i, x in enumerate(forced) if x not in forced[:i]]
     # ---- execution order: topological order of the condensation (members of a loop stay adjacent, in
     #      their original relative order), so that only genuine feedback is "out of order"
     spec['comps'] += comps
@@ -256,6 +281,8 @@ def gen_spec(rng, opts=None):
     spec['comps'] = [c for c in spec['comps'] if c['kind'] == 'ivc'] + comps
     # ---- terms and partial styles -------------------------------------------------------------------
     for c in comps:
+        if c.get('fixed_terms'):
+            continue
         ntot = sum(int(np.prod(i['shape'])) for i in c['inputs'])
         sc = 0.9 / max(1.0, np.sqrt(ntot))
         matfree = rng.random() < o['p_matfree']
@@ -613,6 +640,9 @@ def _gen_solvers(rng, spec, o):
             if ln == 'direct':
                 lno['assemble_jac'] = (rng.random() < 0.7) and not has_matfree
                 lno['jac_type'] = rng.choice(['dense', 'csc'])
+            if o['p_rhs_checking'] > 0 and ln in ('direct', 'krylov', 'krylov+lnbgs') and \
+                    rng.random() < o['p_rhs_checking']:
+                lno['rhs_checking'] = {'max_cache_entries': rng.choice([3, 40, 400])}
             node['ln'] = lno
         for k in kids:
             visit(k)
@@ -635,6 +665,11 @@ def _gen_dv_resp(rng, spec, o):
     states = [oo['name'] for c in spec['comps'] if c['kind'] != 'ivc' for oo in c['outputs']]
     rng.shuffle(states)
     of = sorted(states[:rng.randint(1, min(3, len(states)))])
+    if spec.get('force_of'):
+        # each scaled copy directly after its source, so that their (anti-)parallel reverse-mode right-hand
+        # sides are still in a small linear-solution cache
+        pairs = spec['force_of']
+        of = [x for x in of if x not in pairs] + pairs
     spec['of'] = of
     spec['wrt'] = wrt or [params[0][0]['name']]
 
@@ -691,15 +726,17 @@ def _ln(om, s):
     if t == 'runonce':
         return om.LinearRunOnce()
     if t == 'direct':
-        return om.DirectSolver(assemble_jac=s.get('assemble_jac', True))
+        return om.DirectSolver(assemble_jac=s.get('assemble_jac', True), rhs_checking=s.get('rhs_checking', False))
     if t == 'lnbgs':
         return om.LinearBlockGS(**kw)
     if t == 'lnbj':
         return om.LinearBlockJac(**kw)
     if t == 'krylov':
-        return om.ScipyKrylov(iprint=-1, err_on_non_converge=False, atol=1e-14, rtol=1e-14, maxiter=500)
+        return om.ScipyKrylov(iprint=-1, err_on_non_converge=False, atol=1e-14, rtol=1e-14, maxiter=500,
+                              rhs_checking=s.get('rhs_checking', False))
     if t == 'krylov+lnbgs':
-        k = om.ScipyKrylov(iprint=-1, err_on_non_converge=False, atol=1e-14, rtol=1e-14, maxiter=500)
+        k = om.ScipyKrylov(iprint=-1, err_on_non_converge=False, atol=1e-14, rtol=1e-14, maxiter=500,
+                           rhs_checking=s.get('rhs_checking', False))
         k.precon = om.LinearBlockGS(iprint=-1, maxiter=2, err_on_non_converge=False)
         return k
     raise ValueError(t)
@@ -883,3 +920,77 @@ def top_name(spec, var):
         if p['name'] == var:
             return var
     return name_at(spec, var, _owner(spec, var), 0)
+
+
+# ----------------------------------------------------------------------------------------------
+# structured family: linear-solution caching (rhs_checking) in reverse mode
+# ----------------------------------------------------------------------------------------------
+def gen_rhs_cache_spec(rng):
+    """iv0 -> g0[ c0 (-> c1) ] -> s0, s1 (scaled copies y = s*x outside g0).
+
+    g0 owns a DirectSolver / ScipyKrylov with rhs_checking; the root runs LinearRunOnce (or LinearBlockGS),
+    so in reverse mode g0's solver sees, for row i of a scaled copy, s times the right-hand side it saw
+    for row i of the copied state: equal / negative / parallel / anti-parallel cache hits all occur.
+    """
+    n = rng.choice([1, 2, 3, 4])
+    spec = {'opts': dict(DEFAULTS, family='rhs-cache'), 'comps': [], 'conns': [], 'params': []}
+    spec['comps'].append({'name': 'iv0', 'kind': 'ivc', 'inputs': [], 'outputs': [
+        {'name': 'iv0_o0', 'shape': [n], 'units': None, 'val': np.round(rng_uniform(rng, (n,), -2, 2), 3).tolist()}]})
+    inner = []
+    prev = 'iv0_o0'
+    for i in range(rng.randint(1, 2)):
+        kind = 'imp' if rng.random() < 0.4 else 'exp'
+        c = {'name': 'c%d' % i, 'kind': kind, 'inputs': [{'name': 'c%d_x0' % i, 'shape': [n], 'units': None}],
+             'outputs': [{'name': 'c%d_y0' % i, 'shape': [n], 'units': None,
+                          'val': np.round(rng_uniform(rng, (n,), -0.5, 0.5), 3).tolist()}],
+             'terms': {}, 'styles': {}}
+        if kind == 'imp':
+            c['beta'] = round(rng.uniform(-0.3, 0.3), 3)
+        A = np.round(rng_uniform(rng, (n, n), -1, 1) * 0.6, 4)
+        B = np.round(rng_uniform(rng, (n, n), -1, 1) * 0.6, 4)
+        A[A == 0] = 0.05
+        c['terms']['c%d_y0' % i] = {'c': np.round(rng_uniform(rng, (n,), -1, 1), 3).tolist(),
+                                    'A': {'c%d_x0' % i: A.tolist()}, 'B': {'c%d_x0' % i: B.tolist()}}
+        c['styles']['c%d_y0|c%d_x0' % (i, i)] = rng.choice(['dense', 'coo', 'csr', 'rowcol'])
+        spec['comps'].append(c)
+        spec['conns'].append({'src': prev, 'tgt': 'c%d_x0' % i, 'tgt_units': None, 'chain': [],
+                              'src_is_param': False, 'how': 'connect', 'level': 0})
+        inner.append(c['name'])
+        prev = 'c%d_y0' % i
+    last = prev
+    copies = []
+    for k in range(rng.randint(1, 3)):
+        sfac = rng.choice([-3.0, -2.0, -0.5, -1.0, 2.0, 0.25, -1.5, 1.0])
+        nm = 's%d' % k
+        spec['comps'].append({'name': nm, 'kind': 'exp', 'fixed_terms': True,
+                              'inputs': [{'name': nm + '_x0', 'shape': [n], 'units': None}],
+                              'outputs': [{'name': nm + '_y0', 'shape': [n], 'units': None}],
+                              'terms': {nm + '_y0': {'c': [0.0] * n, 'A': {nm + '_x0': (sfac * np.eye(n)).tolist()},
+                                                     'B': {}}},
+                              'styles': {'%s_y0|%s_x0' % (nm, nm): rng.choice(['dense', 'diag', 'rowcol'])}})
+        spec['conns'].append({'src': last, 'tgt': nm + '_x0', 'tgt_units': None, 'chain': [],
+                              'src_is_param': False, 'how': 'connect', 'level': 0})
+        copies.append(nm + '_y0')
+    ln_in = rng.choice(['direct', 'direct', 'krylov'])
+    lno = {'type': ln_in, 'rhs_checking': rng.choice([True, {'max_cache_entries': 2}, {'max_cache_entries': 50}])}
+    if ln_in == 'direct':
+        lno['assemble_jac'] = rng.random() < 0.5
+        lno['jac_type'] = rng.choice(['dense', 'csc'])
+    g0 = {'group': 'g0', 'children': [{'comp': x} for x in inner], 'nl': {'type': 'runonce'}, 'ln': lno,
+          'cyclic': False}
+    spec['tree'] = {'group': '', 'children': [{'comp': 'iv0'}, g0] + [{'comp': c[:-3]} for c in copies],
+                    'nl': {'type': 'runonce'}, 'ln': {'type': rng.choice(['runonce', 'runonce', 'lnbgs'])},
+                    'cyclic': False}
+    spec['path'] = {'iv0': 'iv0'}
+    for x in inner:
+        spec['path'][x] = 'g0.' + x
+    for c in copies:
+        spec['path'][c[:-3]] = c[:-3]
+    spec['up'] = {}
+    for c in spec['comps']:
+        for v in c['inputs'] + c['outputs']:
+            spec['up'][v['name']] = 0
+    spec['of'] = [last] + copies
+    spec['force_of'] = list(spec['of'])
+    spec['wrt'] = ['iv0_o0']
+    return spec
